@@ -21,6 +21,10 @@ fn main() {
     let address = arg(&args, "--address").or_else(|| args.iter().find_map(|a| a.strip_prefix("--varlink=").map(|s| s.to_string())));
     match mode {
         "serve" => {
+            if args.iter().any(|a| a == "--banner") {
+                // a chatty service: whatever it prints on stdout must not end up in anybody's reply stream
+                println!("verif-svc: starting up (this line goes to stdout)");
+            }
             if let Some(p) = arg(&args, "--probe") {
                 probe(&p);
             }
